@@ -52,17 +52,17 @@ def check_equivalent(ctx, h, p, L, w=None, where=""):
     tot = float(p.sum())
     ctx.close(float(cl.sum()), tot, 1e-12, "equivalent_layers%s conserves total Cn2 (N=%d, L=%d)" % (where, len(h), L), scale=tot or 1.0, name="EL total cn2")
     ctx.require(bool(np.all(np.isfinite(hl))), "equivalent_layers%s: non-finite layer height %r (N=%d, L=%d)" % (where, hl.tolist(), len(h), L))
-    m = moments_53(h, p)
+    m = moments_53(h.astype(np.float64), p)
     ctx.close(moments_53(hl, cl), m, 1e-11, "equivalent_layers%s conserves the 5/3 height moment" % where, scale=m or 1.0, name="EL height moment")
     if w is not None:
         wl = np.asarray(out[2])
         ctx.require(wl.shape == (L,) and bool(np.all(np.isfinite(wl))), "equivalent_layers: wind output shape/finite")
-        mw = moments_53(w, p)
-        ctx.close(moments_53(wl, cl), mw, 1e-11, "equivalent_layers conserves the 5/3 wind moment", scale=mw or 1.0, name="EL wind moment")
+        mw = moments_53(w.astype(np.float64), p)
+        ctx.close(moments_53(wl.astype(np.float64), cl), mw, 1e-11 if w.dtype != np.float32 else 2e-6, "equivalent_layers conserves the 5/3 wind moment", scale=mw or 1.0, name="EL wind moment (%s)" % ("single" if w.dtype == np.float32 else "double"))
     # slab membership: own half-open equal-thickness slabs
     lo, hi = float(h.min()), float(h.max())
     step = (hi - lo) / L
-    pos = (h - lo) / step if step > 0 else np.zeros_like(h)
+    pos = (h.astype(np.float64) - lo) / step if step > 0 else np.zeros(len(h))
     idx = np.minimum(np.floor(pos).astype(int), L - 1)
     amb = np.abs(pos - np.round(pos)) < 1e-9 * L
     amb &= (np.round(pos) > 0) & (np.round(pos) < L)
@@ -106,6 +106,13 @@ def profile(draw, allow_zero=False, max_n=60):
             p[0] = 1e-15
     w = rng.uniform(1, 60, size=N)
     L = draw(st.integers(1, N - 1))
+    wdt = draw(st.sampled_from(["float64", "float64", "float32", "int64", "int32"]))
+    if wdt.startswith("int"):
+        w = np.maximum(np.round(w), 1).astype(wdt)            # whole-m/s wind tables are valid input
+    else:
+        w = w.astype(wdt)
+    if draw(st.integers(0, 4)) == 0 and float(np.min(np.diff(h))) > 2.0:
+        h = np.round(h).astype("int64")                        # whole-metre height tables too
     return {"h": h, "p": p, "w": w, "L": L, "kind": kind}
 
 
@@ -120,7 +127,7 @@ def el_cases(draw):
 
 def el_body(ctx, case):
     h, p, L = case["h"], case["p"], case["L"]
-    ctx.case(case, nontrivial=case["kind"] in ("irregular", "clustered") or L >= 3, classes=[case["kind"], "L1" if L == 1 else ("L2" if L == 2 else "L3plus"), "wind" if case["use_w"] else "no_wind", "zeros" if (p == 0).any() else "positive"])
+    ctx.case(case, nontrivial=case["kind"] in ("irregular", "clustered") or L >= 3, classes=[case["kind"], "L1" if L == 1 else ("L2" if L == 2 else "L3plus"), "wind" if case["use_w"] else "no_wind", "zeros" if (p == 0).any() else "positive", "w_" + str(case["w"].dtype), "h_" + str(h.dtype)])
     check_equivalent(ctx, h, p, L, case["w"] if case["use_w"] else None)
 
 
